@@ -121,6 +121,8 @@ TEMPLATES = [
     ["Foo v. Bar, ", "1 U.S. 1", ", 5-6", " (1999)", ". ", "See ", "Bar at 9", ", ", "1 Rob. 1", ". "],
     ["Smith v. Jones (2001) ", "1 Wash. 2d 3", ", ", "12 Marsh.(Ky.) 345 (1829)", "; ", "Jones at 7", ", ", "1 Marsh. 2", " (1999)"],
     ["Foo v. Bar, ", "1 Rob. 1", ", ", "2 F.2d 2", " (1850)", ". ", "Id. at 5", "; ", "1 Rob. at 3", " (x)"],
+    # a rejected leading year on the first of two parallel citations, the second with its own year and an ambiguous reporter
+    ["Foo v. Bar, ", "(2100) ", "1 U.S. 1", ", ", "12 Marsh.(Ky.) 345 (1829)", ". "],
 ]
 EDIT_ALPHA = A2[:20] + ["1 Rob. 1", "1 Wash. 2d 3", "Bar at 9", " (1850)", "1 Marsh. 2"]
 
